@@ -181,7 +181,11 @@ def c11_program(draw):
         inst = draw(st.sampled_from(insts))
         hidden = [n for n in NAMES if n not in inst["defs"] and n not in exported]
         if hidden:
-            files[inst["path"]].append({"k": "data", "d": "word", "es": [("sym", draw(st.sampled_from(hidden)))]})
+            if draw(st.booleans()):
+                files[inst["path"]].append({"k": "data", "d": "word", "es": [("sym", draw(st.sampled_from(hidden)))]})
+            else:
+                # ... inside a definition that nothing refers to
+                files[inst["path"]].insert(draw(st.integers(0, len(files[inst["path"]]))), {"k": "assign", "name": "unusedq", "e": ("bin", "+", ("sym", draw(st.sampled_from(hidden))), ("num", 1))})
         else:
             fault = None
     elif fault == "dup-def":
